@@ -70,9 +70,7 @@ def C14_cutState' : Lsm :=
 theorem C14_cut_inside_key_breaks_inv :
     LsmInv C14_cutState ∧ VerBound C14_cutState ∧ CompactOk C14_cutState C14_cutCd ∧
       C14_cutState.compact C14_cutCd 0 2 0 = some C14_cutState' ∧ ¬ LsmInv C14_cutState' := by
-  refine ⟨by decide, by decide, by decide, ?_, by decide⟩
-  simp only [C14_cutState, C14_cutCd, C14_cutState']
-  lsm_eval
+  refine ⟨by decide, by decide, by decide, by lsm_decide, by decide⟩
 
 /-! non-vacuity: an L0→L2 compaction with a non-empty bottom run -/
 def C14_exState : Lsm :=
@@ -89,8 +87,6 @@ def C14_exState' : Lsm :=
                [{ ents := [⟨[1], 3, 0, 0, 0, []⟩, ⟨[1], 1, 0, 0, 0, []⟩] }, { ents := [⟨[2], 2, 0, 0, 0, []⟩] },
                 { ents := [⟨[3], 1, 0, 0, 0, []⟩] }]] }
 example : C14_exState.compact C14_exCd 0 2 0 = some C14_exState' ∧ LsmInv C14_exState' := by
-  refine ⟨?_, by decide⟩
-  simp only [C14_exState, C14_exCd, C14_exState']
-  lsm_eval
+  refine ⟨by lsm_decide, by decide⟩
 
 end Badger
